@@ -431,19 +431,24 @@ def _mutate(d, tape, hist):
   """Mutates a derived object through its public attributes."""
   import openhtf as htf
   from openhtf.core import phase_group
-  target = d
-  # descend to a phase descriptor if the derived object is a collection
-  for _ in range(4):
-    if isinstance(target, htf.PhaseDescriptor):
-      break
-    if isinstance(target, phase_group.PhaseGroup):
-      target = (target.main or target.setup or target.teardown)
-    elif hasattr(target, 'nodes') and target.nodes:
-      target = target.nodes[0]
-    else:
-      break
-  if not isinstance(target, htf.PhaseDescriptor):
+  # any phase descriptor inside the derived object, however deeply nested
+  found = []
+
+  def walk(n, depth):
+    if isinstance(n, htf.PhaseDescriptor):
+      found.append(n)
+    elif isinstance(n, phase_group.PhaseGroup):
+      for part in (n.setup, n.main, n.teardown):
+        if part is not None:
+          walk(part, depth + 1)
+    elif hasattr(n, 'nodes'):
+      for c in n.nodes:
+        walk(c, depth + 1)
+
+  walk(d, 0)
+  if not found:
     return
+  target = found[tape.draw(len(found), 'which_phase')]
   what = tape.pick(['options', 'measurement_value', 'add_measurement', 'extra_kwargs', 'plugs', 'validator',
                     'diagnosers', 'options_name'], 'mut')
   hist.append('mutate:' + what)
